@@ -91,6 +91,9 @@ FROMLIKE_LINES = (
     "From 10:00:00 2025 onwards {t} applies",
     "From {t} 1999 to the present day",
     "From 2019 until now: {t}",
+    # written by the sender with a ">" of their own (a quoted reply): stored as it is by mboxo and look-alikes-only writers
+    ">From what I read in {t}, nothing has changed",
+    ">>From the older message {t}: see above",
 )
 
 
@@ -507,13 +510,19 @@ _FROM_ESC = re.compile(rb"^>*From ")
 
 
 _LOOKALIKE = re.compile(rb"^>*From \S+.*\d{4}[ \t]*$")      # "From " + token + ... + four digits at the end: could be taken for a separator
-ESCAPE_STYLES = ("mboxrd", "lookalikes-only")
+ESCAPE_STYLES = ("mboxrd", "mboxo", "lookalikes-only")
 
 
 def needs_escape(line: bytes, style: str) -> bool:
-    """mboxrd: every ^>*From(blank) line.  lookalikes-only: what writers without a general quoting rule (mboxcl / mboxcl2,
+    """mboxrd: every ^>*From(blank) line.  mboxo (the classic rule, what Python's mailbox.mbox and most clients write): only a
+    line that starts with "From " - a line the sender wrote as ">From ..." is stored as it is, so a stored ">From " line does not say
+    whether its ">" is the writer's or the sender's.  lookalikes-only: what writers without a general quoting rule (mboxcl / mboxcl2,
     home-grown exporters) must at least protect - lines shaped like a separator; every other From line stays as it is."""
-    return bool(_FROM_ESC.match(line)) if style == "mboxrd" else bool(_LOOKALIKE.match(line.rstrip(b"\r\n")))
+    if style == "mboxrd":
+        return bool(_FROM_ESC.match(line))
+    if style == "mboxo":
+        return line.startswith(b"From ")
+    return bool(_LOOKALIKE.match(line.rstrip(b"\r\n")))
 
 
 def escape_text(text: str, style: str) -> str:
@@ -905,7 +914,7 @@ def make_attachment(rng, tok, kind: str, fx: dict) -> dict:
     fname_tok = rng.choice([fname_tok] * 4 + [f"{fname_tok} {rng.choice(SAMPLES['utf-8'])}", f"{fname_tok}-" + "long-name-" * 9,
                                               f'{fname_tok} "q"; x', f"{fname_tok} {rng.choice(SAMPLES['utf-8'])} " + "läng-" * 14])
     if kind in ("txt", "txt-8bit", "txt-qp"):
-        lines = [f"{tok('a')} {sample}", "From attachment line " + tok("a"), tok("a")]
+        lines = [f"{tok('a')} {sample}", "From attachment line " + tok("a"), ">From the minutes of " + tok("a"), ">>From deeper in the thread " + tok("a"), tok("a")]
         data = ("\n".join(lines) + "\n").encode("utf-8")
         cte = {"txt": "base64", "txt-8bit": "8bit" if cs != "us-ascii" else "7bit", "txt-qp": "quoted-printable"}[kind]
         return {"filename": f"{fname_tok}.txt", "ctype": "text/plain", "kind": "txt", "disp": "attachment", "cte": cte, "data": data}
